@@ -9,6 +9,7 @@ from warnings import warn
 import contextlib
 import json
 import numbers
+import re
 
 from jsonschema import (
     _legacy_validators,
@@ -575,6 +576,9 @@ Draft7Validator = create(
 
 _LATEST_VERSION = Draft7Validator
 
+# RFC 6901 array indices: digits without sign, leading zeros or whitespace
+_ARRAY_INDEX = re.compile(r"(0|[1-9][0-9]*)\Z")
+
 
 class RefResolver(object):
     """
@@ -782,18 +786,23 @@ class RefResolver(object):
                 a URI fragment to resolve within it
         """
 
-        fragment = fragment.lstrip(u"/")
-        parts = unquote(fragment).split(u"/") if fragment else []
+        if fragment.startswith(u"/"):
+            # Only the leading separator: an empty first token is a key
+            fragment = fragment[1:]
+            parts = unquote(fragment).split(u"/")
+        else:
+            parts = unquote(fragment).split(u"/") if fragment else []
 
         for part in parts:
             part = part.replace(u"~1", u"/").replace(u"~0", u"~")
 
-            if isinstance(document, Sequence):
+            if (
+                isinstance(document, Sequence)
+                and not isinstance(document, str)
+                and _ARRAY_INDEX.match(part)
+            ):
                 # Array indexes should be turned into integers
-                try:
-                    part = int(part)
-                except ValueError:
-                    pass
+                part = int(part)
             try:
                 document = document[part]
             except (TypeError, LookupError):
